@@ -327,8 +327,43 @@ func (b ByteReader) ReadByte() (byte, error) {
 // WrapReader returns the reader under a tape-chosen dynamic type:
 // 0 itself, 1 bufio.Reader (small), 2 bufio.Reader (large), 3 with ReadByte,
 // 4 hidden behind a plain io.Reader struct.
+// RefillBuffer is a reader that keeps its own buffer and refills it from the
+// link with one Read whenever it runs empty. Like bytes.Buffer it also offers
+// Len(): the number of bytes buffered RIGHT NOW - not what the connection will
+// still deliver.
+type RefillBuffer struct {
+	Src io.Reader
+	buf []byte
+	err error
+}
+
+func (b *RefillBuffer) Len() int { return len(b.buf) }
+
+func (b *RefillBuffer) Read(p []byte) (int, error) {
+	if len(p) == 0 {
+		return 0, nil
+	}
+	if len(b.buf) == 0 && b.err == nil {
+		tmp := make([]byte, 4096)
+		n, err := b.Src.Read(tmp)
+		b.buf, b.err = tmp[:n], err
+	}
+	if len(b.buf) > 0 {
+		n := copy(p, b.buf)
+		b.buf = b.buf[n:]
+		return n, nil
+	}
+	err := b.err
+	if err != io.EOF {
+		b.err = nil // a transport error is reported once; what follows is the link's business
+	}
+	return 0, err
+}
+
 func WrapReader(c *sim.Ctx, r *Reader) (io.Reader, string) {
-	switch c.T.Pick(6, 1, 1, 1, 1) {
+	switch c.T.Pick(6, 1, 1, 1, 1, 1) {
+	case 5:
+		return &RefillBuffer{Src: r}, "self-refilling buffer with Len()"
 	case 1:
 		return bufio.NewReaderSize(r, 16), "bufio.Reader(16)"
 	case 2:
@@ -380,6 +415,7 @@ type FaultErr struct {
 	Msg     string
 	Inner   error
 	timeout bool
+	list    bool
 }
 
 func (e *FaultErr) Error() string {
@@ -389,6 +425,23 @@ func (e *FaultErr) Error() string {
 	return e.Msg
 }
 func (e *FaultErr) Unwrap() error   { return e.Inner }
+
+// Wire is the value the faulty reader or writer actually returns: E itself,
+// or (one time in eight) an ErrList holding E - an error whose dynamic type is
+// a slice and therefore NOT comparable (go/scanner.ErrorList, a joined error):
+// errors.Is still finds E through Unwrap() []error, but using the value as a
+// map key or with == panics or fails.
+func (e *FaultErr) Wire() error {
+	if e.list {
+		return ErrList{e}
+	}
+	return e
+}
+
+type ErrList []error
+
+func (l ErrList) Error() string   { return "several errors: " + l[0].Error() }
+func (l ErrList) Unwrap() []error { return l }
 func (e *FaultErr) Timeout() bool   { return e.timeout }
 func (e *FaultErr) Temporary() bool { return e.timeout }
 
@@ -420,6 +473,10 @@ func NewFaultErr(c *sim.Ctx, what string) (*FaultErr, string) {
 		e.Inner, kind = syscall.EINTR, "wraps-EINTR"
 	case 7:
 		e.Inner, kind = io.ErrNoProgress, "wraps-io.ErrNoProgress"
+	}
+	if c.T.Bool(1, 8) {
+		e.list = true
+		kind += "+delivered-inside-an-uncomparable-error-value"
 	}
 	c.Count("fault.error-kind:" + kind)
 	return e, kind
